@@ -18,10 +18,11 @@ LMAX = 3
 
 
 class MapShape:
-    def __init__(self, label, k_outer_before, k_inner, k_outer_after, minlen):
+    def __init__(self, label, k_outer_before, k_inner, k_outer_after, minlen, sym_has=True):
         self.label = label
         self.shape = (k_outer_before, k_inner, k_outer_after)
         self.minlen = minlen
+        self.sym_has = sym_has      # whether "pushed with / without an origin" is symbolic per segment
 
 
 def mapcore_work(sh):
@@ -38,14 +39,14 @@ def mapcore_work(sh):
     def body(it):
         lens = [z3.Int('len%d' % i) for i in range(n)]
         srcs = [z3.Int('src%d' % i) for i in range(n)]
-        has = [z3.Bool('has%d' % i) for i in range(n)]
+        has = [z3.Bool('has%d' % i) if sh.sym_has else z3.BoolVal(True) for i in range(n)]
         pos = z3.Int('pos')
         for i in range(n):
             it.assume(z3.And(lens[i] >= sh.minlen, lens[i] <= LMAX, srcs[i] >= 0, srcs[i] <= 100))
         it.assume(pos >= 0)
 
         def push(cell, i):
-            if it.decide(has[i], 'has_origin'):
+            if (not sh.sym_has) or it.decide(has[i], 'has_origin'):
                 org = some(Tup([PathV('p%d' % i), Struct('Range', [srcs[i], srcs[i] + lens[i]])]))
             else:
                 org = none()
@@ -82,7 +83,7 @@ def mapcore_work(sh):
             return {'bad': True, 'model': m, 'got': got}
         return {'bad': False}
     mdl = Models()
-    ex = Explorer(P, mdl, body, max_paths=20000, step_limit=5_000_000)
+    ex = Explorer(P, mdl, body, max_paths=6000, step_limit=5_000_000)
     res = ex.run()
     if ex.truncated:
         raise Inconclusive('map core shape %s: path budget exhausted' % sh.label)
@@ -90,12 +91,40 @@ def mapcore_work(sh):
            'real_paths': len(res), 'ref_paths': 0, 'pairs': len(res), 'queries': ex.solver_checks, 'solver_s': ex.solver_time,
            'steps': ex.steps, 'models': dict(mdl.called), 'cex': [], 'obligations': [], 'case': {'shape': sh.shape, 'minlen': sh.minlen}}
     seen = 0
+
+    def ops_of(m):
+        def iv(name, d=0):
+            return int(m.get(name, d))
+
+        def mk(i):
+            L = iv('len%d' % i, sh.minlen)
+            org = [i, iv('src%d' % i), iv('src%d' % i) + L] if (m.get('has%d' % i, 'False') == 'True' or not sh.sym_has) else None
+            op = {'op': 'push', 'len': L, 'origin': org}
+            if any(k.startswith('charcount_') for k in m) and L >= 2:
+                op['text'] = '\u00e9' + 'x' * (L - 2)      # multi-byte content (chars != bytes)
+            return op
+        ops = [mk(i) for i in range(kb)]
+        if ki:
+            ops.append({'op': 'merge', 'ops': [mk(i) for i in range(kb, kb + ki)]})
+        ops += [mk(i) for i in range(kb + ki, n)]
+        return ops
+
+    npanic = 0
     for r in res:
-        for ob in r.obligations:
-            out['obligations'].append(ob)
+        panics = [dict(ob, model=ob.get('model')) for ob in r.obligations]
         if r.outcome == 'panic':
-            out['cex'].append({'kind': 'panic', 'note': 'panic in push/merge/origin: %s' % r.panic['msg'], 'model': r.model,
-                               'status': 'reproduced', 'role': 'mapcore-panic:%s' % sh.label})
+            panics.append({'msg': r.panic['msg'], 'model': r.model})
+        for ob in panics:
+            out['obligations'].append(ob)
+            if npanic >= 3 or not ob.get('model'):
+                continue
+            npanic += 1
+            ops = ops_of(ob['model'])
+            nat = E.native().request({'cmd': 'pt_ops', 'ops': ops}, cache=False)
+            out['cex'].append({'kind': 'panic', 'note': 'panic in push/merge/origin: %s for ops %s' % (ob['msg'], ops), 'model': ob['model'],
+                               'status': 'reproduced' if (nat.get('panic') or nat.get('crash')) else 'not_reproduced',
+                               'role': 'mapcore-panic:%s' % sh.label, 'native': nat})
+        if r.outcome == 'panic':
             continue
         v = r.value
         if v and v['bad'] and seen < 3:
@@ -106,7 +135,7 @@ def mapcore_work(sh):
                 return int(m.get(name, d))
             def mk(i):
                 L = iv('len%d' % i, sh.minlen)
-                org = [i, iv('src%d' % i), iv('src%d' % i) + L] if m.get('has%d' % i, 'False') == 'True' else None
+                org = [i, iv('src%d' % i), iv('src%d' % i) + L] if (m.get('has%d' % i, 'False') == 'True' or not sh.sym_has) else None
                 return {'op': 'push', 'len': L, 'origin': org}
             ops = [mk(i) for i in range(kb)]
             if ki:
@@ -120,7 +149,7 @@ def mapcore_work(sh):
             for i in range(n):
                 L = iv('len%d' % i, sh.minlen)
                 if base <= pos < base + L:
-                    exp = ['p%d' % i, iv('src%d' % i) + pos - base] if m.get('has%d' % i, 'False') == 'True' else None
+                    exp = ['p%d' % i, iv('src%d' % i) + pos - base] if (m.get('has%d' % i, 'False') == 'True' or not sh.sym_has) else None
                 base += L
             interp_got = v['got']
             if interp_got is not None:
@@ -163,10 +192,19 @@ def families(args):
         for kb, ki, ka in itertools.product(range(0, mk + 1), range(1, mk + 1), range(0, mk + 1)):
             if kb + ki + ka <= (4 if args.tier == 'quick' else 7):
                 shapes.append(MapShape('merge%d-%d-%d/min%d' % (kb, ki, ka, minlen), kb, ki, ka, minlen))
+    # many non-empty segments: the map grows past one B-tree node (std CAPACITY = 11), internal-node search
+    for k in ((9, 12, 14) if args.tier == 'quick' else (9, 12, 14, 18, 24, 30)):
+        shapes.append(MapShape('push%d/min1' % k, k, 0, 0, 1, sym_has=False))
+    for kb, ki, ka in (((6, 7, 2), (2, 12, 1)) if args.tier == 'quick' else ((6, 7, 2), (2, 12, 1), (12, 12, 3), (0, 13, 13))):
+        shapes.append(MapShape('merge%d-%d-%d/min1' % (kb, ki, ka), kb, ki, ka, 1, sym_has=False))
     fam_map = ppprop.Family('mapcore', shapes, None, ('origin',), custom_work=mapcore_work)
     fam_sites = ppprop.Family('sites', ppfamily.site_programs(args.tier, args.seed), site_case, ('origin', 'tokens'),
                               want_origins=True, role_fn=site_role)
-    return [fam_map, fam_sites]
+    import c10
+    incs = [p for p in ppfamily.include_programs(args.tier, args.seed)
+            if p.label in ('inc/non-ascii', 'inc/nested', 'inc/twice', 'inc/flow-in', 'inc/macro-named', 'inc/search/q/p1-p2')]
+    fam_inc = ppprop.Family('sites-includes', incs, c10.mk_case, ('origin', 'tokens'), want_origins=True)
+    return [fam_map, fam_sites, fam_inc]
 
 
 def main():
@@ -175,7 +213,7 @@ def main():
                       rule='mapcore: one case per op-sequence shape (k pushes / pushes+merge+pushes), all lengths 0..3 (and the >=1 sub-family), source offsets, '
                            'presence of an origin and the probe position symbolic, executed on the real push/merge/origin/Range MIR; sites: one case per text of the '
                            'emission-site family with define table and strip_comments symbolic; distinct_nontrivial = (case, feasible path) pairs of cases with >1 path',
-                      bounds={'tier': args.tier, 'mapcore': 'segments <= 4 quick / 7 thorough, len 0..3, one merge level', 'sites': 'text family lib/ppfamily.site_programs'},
+                      bounds={'tier': args.tier, 'mapcore': 'segments <= 4 quick / 7 thorough with len 0..3; up to 14 quick / 30 thorough segments with len 1..3 (internal B-tree nodes); one merge level', 'sites': 'text family lib/ppfamily.site_programs'},
                       outside=['more segments than the bound in the symbolic map-core query (larger maps occur only through the concrete site texts)',
                                'more than one merge level in the map-core query', 'SyntaxTree::get_origin (one-line wrapper, covered by C20/C14 harness of sv-parser crate)'],
                       assumptions=ppprop.STD_ASSUMPTIONS,
